@@ -163,7 +163,7 @@ CHECKS = {
         engine="mc-signer",
         technique="explicit-state exploration by replay (depth-bounded BFS with canonical-state de-duplication, edit-distance balls around a nominal multi-epoch schedule, fault / restart differential) of the real signer node against an in-process reference aggregator",
         text="Every transition is a call of the real StateMachine::cycle on the real SignerRunner, services and file-backed SQLite stores, assembled as the repository's StateMachineTester does. All histories over a 17-event alphabet (aggregator one epoch ahead of the node / node catches up, tick, epoch and chain progress, aggregator down / stale settings / registration round closed, partial registration of other signers, lost publish and registration acknowledgements, restart) are run up to depth 3 (quick) / 4 (thorough) from 3 / 4 prepared states, all single deviations of a 4-epoch / 5-epoch nominal schedule, and in thorough all pairs of faults; runs with a restart or a lost acknowledgement at every position, and runs with a one-cycle transient aggregator fault (round closed, aggregator down, stale settings, lost registration acknowledgement; thorough: two cycles, and with a restart inside the fault) at every position, must end with exactly the acknowledged publications of the uninterrupted run. Every published signature is judged on the spot by an independent reference aggregator that applies 'registered in e, recorded for e+1, signs in e+2' with its own constants to keys, stake distribution and parameters (all of which change every epoch) and verifies it with mithril-common's MultiSigner; at most one acknowledged publication per (epoch, entity, beacon); nothing published before keys registered two epochs earlier exist; after faults clear the signer signs again. 3040 replays / 1108 states (quick), 28k replays / 5.7k states (thorough).",
-        note="The Cardano node is the repository's test doubles; the aggregator is the harness reference called in process (HTTP client, message adapters and the publisher retry chain are not exercised). The aggregator's clock is the node epoch plus a skew of 0 or 1 (AggAhead / NodeCatchUp events); a publication is judged by the epoch of its entity; liveness is demanded only after the node has caught up and faults are cleared. Events are atomic with respect to a cycle (no mid-cycle crashes). Signer keys come from the OS RNG, canonical states abstract key bytes. Only acknowledged publications count for 'once'. Trusted: mithril_common::protocol::SignerBuilder / MultiSigner and mithril-stm for verification (C01 / C16). <= 5 (+3 tail) epochs, 3 signers.",
+        note="The Cardano node is the repository's test doubles; the aggregator is the harness reference called in process (HTTP client, message adapters and the publisher retry chain are not exercised). The aggregator's clock is the node epoch plus a skew of 0 or 1 (AggAhead / NodeCatchUp events); a publication is judged by the epoch of its entity; liveness is demanded only after the node has caught up and faults are cleared. Epoch changes may happen inside a cycle (after any of its node queries: TickTurn events); new immutable files / blocks and aggregator-side faults happen between cycles; no mid-cycle crashes. Two stake worlds (all stakes change every epoch; own stake constant) - the aggregator-ahead window family runs in the second. Signer keys come from the OS RNG, canonical states abstract key bytes. Only acknowledged publications count for 'once'. Trusted: mithril_common::protocol::SignerBuilder / MultiSigner and mithril-stm for verification (C01 / C16). <= 5 (+3 tail) epochs, 3 signers.",
         design="§4 C20",
     ),
 }
